@@ -202,6 +202,11 @@ func main() {
 				specs = append(specs, histSpec{Backend: b, Steps: []string{sf, "ok"}, Readers: 3, Seed: rng.Int63()})
 			}
 		}
+		// the list refused for its unknown signer is offered again, unchanged, once the signer is known (the
+		// client chains then carry the new CA certificate): it has to take effect
+		specs = append(specs, histSpec{Backend: b, Steps: []string{"unknown-signer", "signer-now-known"}, Readers: 3, Seed: rng.Int63()},
+			histSpec{Backend: b, Steps: []string{"ok", "unknown-signer", "signer-now-known", "ok"}, Readers: 2, Seed: rng.Int63()},
+			histSpec{Backend: b, Steps: []string{"badsig", "unknown-signer", "unknown-signer", "signer-now-known"}, Readers: 3, Seed: rng.Int63()})
 		if b == "disk" {
 			specs = append(specs, histSpec{Backend: b, Steps: []string{"swap-fails", "ok"}, Readers: 3, Seed: rng.Int63()},
 				histSpec{Backend: b, Steps: []string{"ok", "swap-fails"}, Readers: 2, Seed: rng.Int63()})
@@ -435,8 +440,10 @@ func runHistory(run *report.Run, w *world.World, hs histSpec, scratch string, id
 	// refresher
 	state := 0
 	lastRefreshErr := ""
+	chainsWithSibling := core.NewCertificateChains([][]*x509.Certificate{{sibling.Cert, w.Root.Cert}, {w.Int.Cert, w.Root.Cert}}, nil)
 	for si, f := range hs.Steps {
 		target := si + 1
+		useChains := chains
 		ff.failCreate.Store(false)
 		ff.ser.arm(0)
 		switch f {
@@ -462,6 +469,10 @@ func runHistory(run *report.Run, w *world.World, hs histSpec, scratch string, id
 		case "swap-fails":
 			w.CRL.Set(path, origin.Good(buildVersion(target, w.Int, w.Int)))
 			swapFault.Store(true)
+		case "signer-now-known":
+			// the origin keeps serving the bytes of the preceding unknown-signer step
+			target = si
+			useChains = chainsWithSibling
 		case "refused":
 			// cannot change the URL of the CDP; a closed port is simulated by closing the listener path: use truncate of zero bytes + connection close
 			w.CRL.Set(path, origin.Truncate(buildVersion(target, w.Int, w.Int), 0))
@@ -473,11 +484,11 @@ func runHistory(run *report.Run, w *world.World, hs histSpec, scratch string, id
 		refreshing.Store(true)
 		t0 := now()
 		var res string
-		if hs.Unknown {
+		if hs.Unknown && f != "signer-now-known" {
 			chk.C.VerifUpdateCRLs(true)
 			res = "unknown"
 		} else {
-			err := repo.UpdateCRL(locs, chains)
+			err := repo.UpdateCRL(locs, useChains)
 			if err == nil {
 				res = "ok"
 			} else {
@@ -491,13 +502,13 @@ func runHistory(run *report.Run, w *world.World, hs histSpec, scratch string, id
 		refreshing.Store(false)
 		rec.add(porcupine.Operation{ClientId: hs.Readers, Input: opIn{Kind: "refresh", Target: target, Fault: f}, Call: t0, Output: opOut{Result: res}, Return: t1})
 		// reference expectation about the outcome itself (retention / "later successful refresh takes effect")
-		if res == "ok" && f != "ok" {
+		if res == "ok" && f != "ok" && f != "signer-now-known" {
 			run.Violation("refresh-reported-success-under-fault."+f+"."+hs.Backend, hs.String()+": refresh step "+fmt.Sprint(si)+" ("+f+") returned success", &report.Replay{Case: hs.String()})
 		}
-		if res == "err" && f == "ok" {
+		if res == "err" && (f == "ok" || f == "signer-now-known") {
 			run.Violation("healthy-refresh-failed.after-"+prevStep(hs.Steps, si)+"."+hs.Backend, hs.String()+": a healthy refresh failed at step "+fmt.Sprint(si)+": "+lastRefreshErr, &report.Replay{Case: hs.String()})
 		}
-		if f == "ok" {
+		if f == "ok" || f == "signer-now-known" {
 			state = target
 		}
 	}
